@@ -880,8 +880,9 @@ impl EdnsData {
     }
 
     pub fn get_cookie(&self) -> Option<(&[u8], Option<&[u8]>)> {
+        /* A client cookie is exactly 8 octets; anything shorter is not a cookie. */
         self.get_opt(&EDNS_COOKIE)
-            .map(|opt| (&opt.data[..8], opt.data.get(8..)))
+            .and_then(|opt| opt.data.get(..8).map(|client| (client, opt.data.get(8..))))
     }
 
     pub fn set_cookie(&mut self, client: &[u8], server: &[u8]) {
